@@ -41,6 +41,13 @@ class BufferPool(object):
       self.released.remove(bid)
     self.released.append(bid)
 
+  def forget(self, bid):
+    """the id may or may not have been consumed: never refer to it again"""
+    self.out.pop(bid, None)
+    if bid in self.released:
+      self.released.remove(bid)
+    self.ever.add(bid)
+
   def stale(self):
     """released ids that are not outstanding again"""
     return [b for b in self.released if b not in self.out]
